@@ -55,15 +55,23 @@ PROVED = [
     'k = 0 .. 2^len - 1 with popcount d in increasing k, i.e. the mask loop of the Rust code',
     '[P] fuel: exponent_loop_spec (the exponent loop terminates on the supplied fuel and returns the least p^e > bound, p >= 2), coefficient_bound_no_overflow '
     '(no usize overflow for a non-constant polynomial; closed form of the bound), recombination_terminates (the recombination loop never runs out of the supplied fuel)',
+    '[P] factorize_correct_sized (fifth wave; removes the run-computed condition of factorize_correct_flag): for EVERY canonical input of degree <= 25 (size a <= 26, the recombination limit of the property) whose '
+    'coefficients satisfy log2 |a_i| < 2^24 = 16777216 (at most 2^24 bits each), every completed run, for every draw stream, returns the irreducible factorisation: final cofactor 1, a = c * prod f_i^e_i, every f_i '
+    'irreducible over Q; with the unconditional clauses above this is the whole property C07 for such inputs, with a hypothesis on the INPUT only. prime_not_wrapped_sized: for a square-free non-constant q dividing such an a in Z[x] '
+    'the prime search returns (p, p) with p prime below 2^31',
+    '[P] find_prime_small (fifth wave): a prime is rejected by the search only if it divides D = lc(q) * Res(q, q\') (Bezout identity u q\' + v q = Res over Z, MathComp resultant_in_ideal, reduced mod p: the gcd computed by poly_gcd divides a '
+    'non-zero constant): for every prime p0 < 2^31 not dividing D, a returned pair (p, pu) has p = pu, p prime, p <= p0',
+    '[P] primorial_lower_bound (fifth wave): 4^n <= (2n)^(s+2) * prod_{p <= 2n} p whenever 2n < (s+1)^2 (from the Bertrand development: 4^n <= 2n C(2n,n), p^(v_p C(2n,n)) <= 2n, v_p <= 1 for p > sqrt(2n)); '
+    'small_prime_exists: a non-zero integer D with log2 |D| < 2^30 has a prime p < 2^31 not dividing it. Size of D: Leibniz bound |det A| <= n! M^n on the Sylvester matrix (Refine/W5DetBound.v) and |q_i| <= 2^deg(q) ||a||_1 for a divisor q of a '
+    '(Landau-Mignotte) give log2 |D| <= 50 B + 2039 for coefficients of at most B bits and degree <= 25',
     'non-vacuity: complete runs by vm_compute: (x+1)^7, 3x^2(x+1)^12, 4x^4+1 with the 40 logged random bytes, -6(x^2+x+1)(2x^2+1), x^4-10x^2+1 (split mod every prime); '
     'the gcd and square-free part of (x+1)^7; the separability hypothesis for x^4-10x^2+1 and -6(x^2+x+1)(2x^2+1); the irreducibility hypothesis for the run on (x+1)^7',
 ]
 NOT_PROVED = [
-    'irreducibility of the returned factors and the product clause for inputs with repeated factors WITHOUT the run-computed condition "the prime found equals its machine-word copy" (p < 2^31): '
-    'for a polynomial whose leading coefficient and discriminant are divisible by every prime below 2^31 the code would wrap the prime to a negative i32 (the faithful model does the same); no such input is physically '
-    'representable. The Landau-Mignotte bound, uniqueness of Hensel lifts and completeness of the subset search ARE proved. The clause is also checked by the independent oracle on every explored input and the cofactor '
-    'flag of every model run by the correspondence',
-    'termination of the prime search (needs a bound on the primes dividing lc * disc; run on generous fuel) and of the modular factorisation (probability 1 only); '
+    'irreducibility of the returned factors and the product clause for inputs with repeated factors for inputs BEYOND the size bound of factorize_correct_sized (degree > 25 -- outside the property -- or some coefficient of more than '
+    '2^24 bits) without the run-computed condition "the prime found equals its machine-word copy" (factorize_correct_flag covers those runs conditionally): for a polynomial whose lc * discriminant is divisible by every prime below 2^31 '
+    '(at least 2^30 bits) the code would wrap the prime to a negative i32 (the faithful model does the same). The bound 2^24 bits is not optimal (the Leibniz bound is used instead of Hadamard\'s)',
+    'termination of the prime search on the supplied fuel (find_prime_small bounds the PRIME returned, not the number of iterations allowed by prime_fuel: that needs the Hadamard bound log2 |lc disc| <= (2n-1) log2 ||q||_1 + n log2 n, not proved; run on generous fuel) and of the modular factorisation (probability 1 only); '
     'the exponent loop, the recombination loop and the multiplicity loops are proved to terminate on the supplied fuel',
     'absence of panics inside the modular factorisation / Hensel lifting on the inputs factorize passes to them, and of the assert!(lifted.len() <= 25) (outside the property: more than 25 modular factors); '
     'the two expect() of poly_z::factorize are proved unreachable',
@@ -86,9 +94,9 @@ CLAIM = dict(
          'non-constant with positive leading coefficient, the f_i are pairwise distinct and pairwise coprime over Q, every e_i >= 1 is the exact multiplicity of f_i in the input, and '
          'a = c * cof * prod f_i^e_i for a ghost cofactor cof that is primitive, positive, divides gcd(pp, pp\') and has all its irreducible factors among those of prod f_i. The square-free part '
          'is computed correctly (gcd and exact division never fail; the quotient is square-free and has every irreducible factor of the input). The product clause a = c * prod f_i^e_i is '
-         'proved for all square-free inputs, and for all inputs if the returned polynomials are irreducible or the run\'s final cofactor is 1. Irreducibility of every returned polynomial, hence the whole property (cofactor 1, a = c * prod f_i^e_i, f_i irreducible), is proved for every completed run on an input of at most 2^32 coefficients whose prime search returned a prime below 2^31 (not wrapped by `as i32`; a value of the run): Landau-Mignotte bound (over the algebraic numbers) => the modulus p^e chosen by the code suffices; uniqueness of Hensel lifts; soundness and completeness of the subset search in mask order (with C08 and C11). Neither expect() of poly_z::factorize can fire. Zero gives (0, []), a constant c gives (c, []). '
+         'proved for all square-free inputs, and for all inputs if the returned polynomials are irreducible or the run\'s final cofactor is 1. Irreducibility of every returned polynomial, hence the whole property (cofactor 1, a = c * prod f_i^e_i, f_i irreducible), is proved for every completed run on EVERY input of degree <= 25 whose coefficients have at most 2^24 bits (factorize_correct_sized: a hypothesis on the input only; a rejected prime divides lc * Res(q, q\') of the square-free part, which has fewer than 2^30 bits, and the product of the primes below 2^31 has more), and beyond that size for every completed run on an input of at most 2^32 coefficients whose prime search returned a prime below 2^31 (not wrapped by `as i32`; a value of the run): Landau-Mignotte bound (over the algebraic numbers) => the modulus p^e chosen by the code suffices; uniqueness of Hensel lifts; soundness and completeness of the subset search in mask order (with C08 and C11). Neither expect() of poly_z::factorize can fire. Zero gives (0, []), a constant c gives (c, []). '
          'The model is tied to /repo by running the extracted model on the random bytes logged by the implementation: identical answers including the order of the factors and the number of bytes consumed.',
-    note='Irreducibility and the product clause for inputs with repeated factors are [C]: conditional on the run-computed flag "prime found = its machine-word copy" (p < 2^31) and on at most 2^32 coefficients; '
+    note='Irreducibility and the product clause for inputs with repeated factors are [P] for inputs of degree <= 25 with coefficients of at most 2^24 bits, and [C] beyond (conditional on the run-computed flag "prime found = its machine-word copy" (p < 2^31) and on at most 2^32 coefficients); '
          'they are also checked by the oracle (always_oracle) and by the cofactor flag of every model run. Termination of the prime search and of the '
          'modular factorisation is on fuel.',
     ref='DESIGN.md section 4, C07')
